@@ -705,6 +705,15 @@ let rec judge_case (u : uni) (case : sx) (obs : sx list) : verdict =
        (match obs with
         | [L [A "ok"; A r]] -> if r <> want then fail v "prop-legacy" (Printf.sprintf "%s returned %s, expected %s" name r want)
         | _ -> fail v "prop-legacy" (name ^ " failed"))
+   | L [A "parseuint"; A h] ->
+       (* the hand-transcribed model of strconv.ParseUint(s, 0, 64) against the standard library itself *)
+       let bs = bytes_of_hex (if h = "-" then "" else h) in
+       (match obs, parse_uint0 bs with
+        | [L [A "ok"; A r]], UOk n -> if string_of_n n <> r then fail v "corr-strconv" (Printf.sprintf "ParseUint gives %s, the model %s" r (string_of_n n))
+        | [L [A "err"]], UErr _ -> ()
+        | [L [A "ok"; A r]], UErr _ -> fail v "corr-strconv" ("ParseUint accepts (" ^ r ^ "), the model rejects")
+        | [L [A "err"]], UOk n -> fail v "corr-strconv" ("ParseUint rejects, the model gives " ^ string_of_n n)
+        | _ -> fail v "harness" "unparsable observation")
    | L [A "env"] ->
        (* the environment the child actually ran under must be one the model of parseOrDefault
           (EnvParse.v) accepts: the generator only emits valid values, so a rejection here is a
